@@ -2,6 +2,7 @@ package props
 
 import (
 	"bytes"
+	"context"
 	"encoding/json"
 	"errors"
 	"fmt"
@@ -59,7 +60,7 @@ func (c11) Assumptions() []string {
 	return []string{"completion order is an explicit input: the gate holds every concurrent chunk call until all are pending, then releases them one at a time, waiting for each answer to be consumed", "a watchdog that fires while waiting for pending calls makes the case inconclusive, never a violation"}
 }
 
-var c11Kinds = []string{"transport-error", "status-500", "element-errors", "short-array", "long-array"}
+var c11Kinds = []string{"transport-error", "status-500", "element-errors", "short-array", "long-array", "context-cancelled"}
 
 type c11Combo struct {
 	n, m, order, failAt int
@@ -222,10 +223,16 @@ func (rt *c11RT) RoundTrip(req *http.Request) (*http.Response, error) {
 	if rt.gated && !call.multi {
 		select {
 		case <-call.release:
+		case <-req.Context().Done():
+			close(call.done)
+			return nil, req.Context().Err()
 		case <-time.After(30 * time.Second):
 		}
 	}
 	defer close(call.done)
+	if err := req.Context().Err(); err != nil {
+		return nil, err
+	}
 	fail := false
 	for _, t := range call.tokens {
 		if t == rt.failTok {
@@ -309,6 +316,13 @@ func (p c11) Exec(c *run.Ctx, idx int, raw json.RawMessage) []run.Result {
 		}
 	}
 	q := queryer.NewMultiOpQueryer("http://c11.test/graphql", sp.M).WithHTTPClient(&http.Client{Transport: rt})
+	// "context-cancelled": the queryer's own context (the client request's) ends while the chunk calls are in flight
+	qctx, cancelQ := context.WithCancel(context.Background())
+	defer cancelQ()
+	q.WithContext(qctx)
+	if sp.FailKind == "context-cancelled" && !rt.gated {
+		cancelQ()
+	}
 	if atomic.LoadInt32(&c11Hangs) >= 8 {
 		// this process is littered with stuck Query calls, each already reported; the remaining cases of its batch are not run
 		res.Verdict, res.Symptom, res.Message = run.Inconclusive, "not-run-after-repeated-hangs", "8 cases of this child process already ended with query-did-not-return"
@@ -372,6 +386,9 @@ func (p c11) Exec(c *run.Ctx, idx int, raw json.RawMessage) []run.Result {
 			for j := i; j > 0 && key(calls[j]) < key(calls[j-1]); j-- {
 				calls[j], calls[j-1] = calls[j-1], calls[j]
 			}
+		}
+		if sp.FailKind == "context-cancelled" {
+			cancelQ()
 		}
 		for _, oi := range sp.Order {
 			if oi < len(calls) {
